@@ -39,7 +39,7 @@ PROPS = {
     "C04": P("Errors transparent, flows fail-stop", "fault_enumeration",
         "rapid generates failure-free workflow scenarios (depth<=4); for each, EVERY event of its reference path (leaf visit x phase x attempt) is injected as the single failure in 9 error flavours (sentinel, %w-wrapped, pointer type, value type, errors wrapping context errors, a non-comparable and two net.Error-like types) plus 'all attempts fail'; about one leaf in eight is a batch node used as a flow member (its prep and post are positions, its items are not); "
         "plus random multi-failure scripts; non-trivial = the failure ends the run at depth>=1 or is absorbed by retry/fallback",
-        "oracle (model-free, over the actual trace): err==nil iff every node run on the path ended with a successful post; the returned error matches (the very value in its Unwrap tree, its inner sentinel too, errors.As finds the type) the LAST failing callback of the trace; no callback after the failing node run",
+        "oracle (model-free, over the actual trace): err==nil iff every node run on the path ended with a successful post (an error without a single invoked callback is spurious); the returned error matches (the very value in its Unwrap tree, its inner sentinel too, errors.As finds the type) the LAST failing callback of the trace; no callback after the failing node run",
         "fault enumeration over every position of the executed path of each generated scenario",
         "trusted: trace recorder; 'ending callback' is identified as the last callback whose returned error matches",
         "fault-injection enumeration driven by rapid-generated scenarios with shrinking; oracle = errors.Is/As identity + fail-stop predicate over the callback trace",
@@ -53,7 +53,7 @@ PROPS = {
         "cancellation-point enumeration over rapid-generated scenarios in synctest bubbles; oracle = prefix-of-reference + ctx-error predicate",
         [job("main", "^TestC05$", q=4, th=16)]),
     "C06": P("Batch results positional; post once", "exploration",
-        "cases = gated batch scenarios (n items, c workers, prep payload form, per-item scripts, release schedule). EXHAUSTIVE over all completion orders (replay-based DFS over 'which parked exec next') for the (n,c) pairs listed in exhaustive_subspaces; rapid: n in 0..96 (fixed cases up to 129), c in 0..16, 9 prep payload forms, continue and stop mode, gated random release orders, un-gated random virtual durations, and runs struck by a cancellation; "
+        "cases = gated batch scenarios (n items, c workers, prep payload form, per-item scripts, release schedule). EXHAUSTIVE over all completion orders (replay-based DFS over 'which parked exec next') for the (n,c) pairs listed in exhaustive_subspaces; rapid: n in 0..96 (fixed cases up to 129), c in 0..16, 9 prep payload forms, continue and stop mode, gated random release orders, un-gated random virtual durations, runs struck by a cancellation, and second runs of the same node object with another item list; "
         "non-trivial = c>=2 and completion order differs from index order",
         "oracle: post exactly once, entered with no exec in flight and all n started (strict without stop mode / cancellation; otherwise an item still executing must carry an error in the slot post saw - slots are snapshotted at post time); items element-wise identical to prep's; len(results)==n; slot i == the outcome (value identity / error instance) of item i's own last callback",
         "schedule enumeration: every completion order for n<=8,c<=4 (quick) and n=10,c=5 (thorough)",
@@ -61,7 +61,7 @@ PROPS = {
         "schedule-enumerating property test in synctest bubbles + rapid generation; oracle = positional slot/item identity predicate",
         [job("main", "^TestC06$", q=4, th=16)]),
     "C07": P("Batch: every item once, per-item retry/fallback", "exploration",
-        "cases = batch scenarios with independent per-item scripts: EXHAUSTIVE script assignments for n<=2 (quick) / n<=3 (thorough), budget<=2, c in 0..3, fallback on/off, two release orders; rapid: n<=32, budget<=4, c<=8, random release orders, retry waits, and un-gated timed runs; "
+        "cases = batch scenarios with independent per-item scripts: EXHAUSTIVE script assignments for n<=2 (quick) / n<=3 (thorough), budget<=2, c in 0..3, fallback on/off, two release orders; rapid: n<=32, budget<=4, c<=8, random release orders, retry waits, un-gated timed runs, and batches whose items carry equal payloads (every exec call returns a distinct value: n calls, n distinct slots); "
         "non-trivial = >=2 distinct item scripts, >=1 failing item, c>=2",
         "oracle: per item the C02 model on its own script (attempt count, numbering, fallback count/arguments, slot) and a differential run of the same script as a single NewNode; total exec calls == sum of model attempts",
         "generated search with exhaustive small scope",
@@ -165,7 +165,7 @@ PROPS = {
         "metamorphic property-based testing (rapid) + exhaustive short sequences; oracle = last-wins fold, three realisations compared on getters and probe runs",
         [job("main", "^TestC19$", q=4, th=16)]),
     "C20": P("Retry wait honoured and interruptible", "exploration",
-        "cases (virtual clock): single nodes - budgets 2..5 x every failure sequence x waits {0.1, 0.999, 1,2,5,10,25,50 ms, 1 h} x {no cancellation, deadline inside the wait after each attempt index} x 3 node kinds exhaustively, rapid beyond; batch items - rapid, sequential and c in 1..4, un-gated attempts with virtual durations, optional deadline; "
+        "cases (virtual clock): single nodes - budgets 2..5 x every failure sequence x waits {0.1, 0.999, 1, 1.9, 2, 5, 10, 25, 33.333, 50 ms, 1 h} x {no cancellation, deadline inside the wait after each attempt index} x 3 node kinds exhaustively, rapid beyond; batch items - rapid, sequential and c in 1..4, un-gated attempts with virtual durations, optional deadline; "
         "non-trivial = >=2 attempts actually made with wait>0",
         "oracle on virtual timestamps: start[a+1]-end[a] >= w (waits >= 1 ms); first attempt starts at 0; run ends when the last attempt ends (no wait after it); a deadline that - on the judged run's own timeline - falls into the gap after attempt j: no attempt j+1, errors.Is(err, DeadlineExceeded), return within one virtual minute (decisive for the 1 h wait); per batch item the same on its own timeline (retry attempts only; item starts after a deadline are C11's), and the batch returns within a minute of max(deadline, last callback end)",
         "exhaustive over the quantified single-node space, generated search for batches; exact because the clock is virtual",
